@@ -1,7 +1,7 @@
 """Per-property configuration of the checks (which binaries/tests make up a check)."""
 
 E1_ASSUME = [
-    "instrumented code is data-race free between scheduling points (guarded by the separate free-running -race pass)",
+    "instrumented code is data-race free between scheduling points; guarded by the separate free-running -race pass of the same harness bodies (sampling, not exhaustive: it decides nothing about the property itself, a reported SDK race is raised as a violation because it voids this assumption)",
     "Go map iteration order in instrumented packages is canonicalised (sorted keys), not enumerated",
     "schedules needing more deviations than the stated budget from the default (FIFO, run-to-block) schedule are not explored",
 ]
@@ -15,6 +15,7 @@ PROPS = {
         "note": "assumes race-freedom between scheduling points; bounded to K<=3 callers and budget B<=2/3 deviations from the default schedule; map iteration order canonicalised",
         "parts": [
             {"pkg": "mcp", "mode": "instr", "test": "TestVerifC01", "two_phase": True},
+            {"pkg": "mcp", "mode": "race", "test": "TestVerifC01", "scenario_prefix": "free-race/", "free_runs": {"quick": 60, "thorough": 600}},
         ],
         "assumptions": E1_ASSUME + ["at most 3 concurrent calls, one call per caller"],
     },
@@ -37,6 +38,7 @@ PROPS = {
         "note": "in-memory transport only in this check (HTTP transports are exercised by C02/C10 harnesses); sequences longer than 3 and budgets beyond B are outside the bound",
         "parts": [
             {"pkg": "mcp", "mode": "instr", "test": "TestVerifC03", "two_phase": True},
+            {"pkg": "mcp", "mode": "race", "test": "TestVerifC03", "scenario_prefix": "free-race/", "free_runs": {"quick": 60, "thorough": 600}},
         ],
         "assumptions": E1_ASSUME,
     },
@@ -44,10 +46,11 @@ PROPS = {
         "level": "model_checking",
         "uses_vsched": True,
         "technique": "stateless model checking under a controlled scheduler with virtual time: delay-bounded schedules x cancel target/stage x peer behaviours (answers, late, never, stops draining)",
-        "claim": "(i) real sessions: two in-flight tool calls, which one is cancelled and when (early, at first idle moment, after return) plus schedule deviations; only the matching handler may observe ctx.Done, the caller returns with zero virtual time after cancel, the session stays usable; (ii) mcp call() over a scripted transport whose peer answers, answers after the cancel, never answers, or parks the request / the cancel notice write until its context ends: prompt return, the other in-flight call and later calls unaffected, nothing left after the 5s notice timeout",
+        "claim": "(i) real sessions: two in-flight tool calls, which one is cancelled and when (early, at first idle moment, after return) plus schedule deviations; only the matching handler may observe ctx.Done, the caller returns with zero virtual time after cancel, the session stays usable; (ii) mcp call() over a scripted transport whose peer answers, answers after the cancel, never answers, or parks the request / the cancel notice write until its context ends: prompt return, the other in-flight call and later calls unaffected, nothing left after the 5s notice timeout; (iii) a raw peer with two gated tool calls in flight on a server session, optionally a third request reusing either id (refused), then notifications/cancelled for either id: exactly that handler observes ctx.Done, both calls are answered, the session answers a final ping",
         "note": "two concurrent calls; budget-bounded schedules; virtual time (a return that needs a timer is a violation)",
         "parts": [
             {"pkg": "mcp", "mode": "instr", "test": "TestVerifC04", "two_phase": True},
+            {"pkg": "mcp", "mode": "race", "test": "TestVerifC04", "scenario_prefix": "free-race/", "free_runs": {"quick": 60, "thorough": 600}},
         ],
         "assumptions": E1_ASSUME,
     },
@@ -59,7 +62,9 @@ PROPS = {
         "note": "handlers return (gates are opened by the idle-priority controller) and the transport honours Close, as the property presumes; bounded budgets",
         "parts": [
             {"pkg": "internal/jsonrpc2", "mode": "instr", "test": "TestVerifC05", "scenario_prefix": "a/", "two_phase": True},
+            {"pkg": "internal/jsonrpc2", "mode": "race", "test": "TestVerifC05", "scenario_prefix": "free-race/", "free_runs": {"quick": 60, "thorough": 600}},
             {"pkg": "mcp", "mode": "instr", "test": "TestVerifC05", "scenario_prefix": "b/", "two_phase": True},
+            {"pkg": "mcp", "mode": "race", "test": "TestVerifC05", "scenario_prefix": "free-race/", "free_runs": {"quick": 60, "thorough": 600}},
         ],
         "assumptions": E1_ASSUME,
     },
@@ -78,7 +83,7 @@ PROPS = {
         "level": "model_checking",
         "engine": "explore (bounded-exhaustive enumeration)",
         "technique": "bounded-exhaustive enumeration of schema family x argument objects (and output types x handler returns) on a real session, against an independent reference validator written for exactly that family",
-        "claim": "9 input schemas (required/optional, defaults, enums, integer bounds, nested object, array items, additionalProperties false/true) x every argument object over per-field alphabets (missing, null, wrong type, below/at/above bounds, not in enum, non-integral, undeclared and case-variant extra keys): the handler runs iff the reference validator accepts the defaulted arguments and then sees exactly those values; otherwise a tool error and no handler run. 7 output shapes (struct, pointer incl. nil, map incl. nil, slice, int, explicit schema with bound+default, any) x returns x own-content: structuredContent equals the JSON of the output with defaults, text rendering present when the handler supplied no content, schema-violating output is an error",
+        "claim": "11 input schemas (required/optional, defaults, enums, integer bounds, nested object, defaults on properties of a nested object, array items, additionalProperties false/true) x every argument object over per-field alphabets (missing, null, wrong type, below/at/above bounds, not in enum, non-integral, undeclared and case-variant extra keys): the handler runs iff the reference validator accepts the defaulted arguments and then sees exactly those values; otherwise a tool error and no handler run. 8 output shapes (struct, pointer incl. nil, map incl. nil, slice, int, explicit schema with bound+default, explicit schema with a default inside a nested object, any) x returns x own-content: structuredContent equals the JSON of the output with defaults, text rendering present when the handler supplied no content, schema-violating output is an error",
         "note": "JSON Schema features outside the family (refs, oneOf, patterns, nested defaults, floats) are not covered; the reference validator is 100 lines written from the JSON Schema semantics of these keywords",
         "parts": [
             {"pkg": "mcp", "mode": "plain", "test": "TestVerifC16", "shards": 8},
@@ -104,6 +109,7 @@ PROPS = {
         "note": "three sessions, one URI, bursts of <=3 changes; budgets B<=1 (quick) / 2 (thorough)",
         "parts": [
             {"pkg": "mcp", "mode": "instr", "test": "TestVerifC18", "scenario_prefix": "burst/", "two_phase": True},
+            {"pkg": "mcp", "mode": "race", "test": "TestVerifC18", "scenario_prefix": "free-race/", "free_runs": {"quick": 60, "thorough": 600}},
             {"pkg": "mcp", "mode": "plain", "test": "TestVerifC18Resources", "scenario_prefix": "resource-", "shards": 1, "gomaxprocs": 16, "time_s": {"quick": 120, "thorough": 1200}},
         ],
         "assumptions": E1_ASSUME,
@@ -112,7 +118,7 @@ PROPS = {
         "level": "model_checking",
         "engine": "explore (bounded-exhaustive enumeration)",
         "technique": "bounded-exhaustive enumeration of messages/values/byte strings through the real codec and framing, with round-trip and no-panic oracles",
-        "claim": "(a) 15 id tokens (incl. +-2^53, +-(2^53+1), int64 min/max, empty/unicode/NUL strings) x methods x a JSON value grammar (16 leaves, nesting depth 2) as params, results and error data: Decode then Encode preserves id type and exact value, method, params, result, error code/message/data, and is a fixpoint; (b) every such payload through SSE writeEvent/scanEvents and through a pair of newline-delimited ioConns; (c) every content kind incl. _meta/annotations and all ordered pairs of nested content inside tool_result round-trip; required members (list arrays, content, text, data, mimeType, messages, contents, completion.values) are present and non-null on the wire end to end; (d) wrongly-cased member names are not accepted; (e) every byte string up to length 5 (thorough 6) over a 12-byte JSON-significant alphabet into DecodeMessage, readBatch, scanEvents, CallToolResult.UnmarshalJSON: no panic",
+        "claim": "(a) 15 id tokens (incl. +-2^53, +-(2^53+1), int64 min/max, empty/unicode/NUL strings) x methods x a JSON value grammar (16 leaves, nesting depth 2) as params, results and error data, plus payloads of 4000 bytes .. 1 MiB around the 4 KiB / 64 KiB reader-buffer boundaries: Decode then Encode preserves id type and exact value, method, params, result, error code/message/data, and is a fixpoint; (b) every such payload through SSE writeEvent/scanEvents and through a pair of newline-delimited ioConns; (c) every content kind incl. _meta/annotations and all ordered pairs of nested content inside tool_result round-trip; required members (list arrays, content, text, data, mimeType, messages, contents, completion.values) are present and non-null on the wire end to end; (d) wrongly-cased member names are not accepted; (e) every byte string up to length 5 (thorough 6) over a 12-byte JSON-significant alphabet into DecodeMessage, readBatch, scanEvents, CallToolResult.UnmarshalJSON: no panic",
         "note": "values outside the grammar/alphabet and longer inputs are outside the bound; a response whose result is JSON null is treated as not well-formed",
         "parts": [
             {"pkg": "mcp", "mode": "plain", "test": "TestVerifC19", "shards": 16},
@@ -143,7 +149,7 @@ PROPS = {
         "level": "model_checking",
         "engine": "explore (full configuration product)",
         "technique": "exhaustive enumeration of the finite configuration matrix on the real client, server and transports (HTTP served in-process), against a reference negotiation function",
-        "claim": "8 requested versions (default, the 5 supported, an unknown older and newer string) x {in-memory, io pipes} x 3 advertised sets + SSE + streamable {stateful, stateless} x JSON responses x event store = 120 cells, each Connect+ListTools+CallTool: Connect fails only when the request is not mutually supported; otherwise the negotiated version is SDK-supported, servable by the transport (never 2026-07-28 on SSE/stateful), equals the request when mutually supported; discover is followed by an initialize fallback iff no modern overlap (observed on the wire); plus 135 scripted non-SDK servers (discover answers x initialize answers x requests): the negotiated version was offered by the server and is SDK-supported, or Connect fails",
+        "claim": "8 requested versions (default, the 5 supported, an unknown older and newer string) x {in-memory, io pipes} x 3 advertised sets + SSE + streamable {stateful, stateless} x JSON responses x event store = 120 cells, each Connect+ListTools+CallTool: Connect fails only when the request is not mutually supported and no fallback applies (a modern or unknown-newer request against a server without modern overlap but with shared legacy versions must fall back to initialize and connect); otherwise the negotiated version is SDK-supported, servable by the transport (never 2026-07-28 on SSE/stateful), equals the request when mutually supported; discover is followed by an initialize fallback iff no modern overlap (observed on the wire); plus 135 scripted non-SDK servers (discover answers x initialize answers x requests): the negotiated version was offered by the server and is SDK-supported, or Connect fails",
         "note": "a custom transport's ProtocolVersionSupporter is only held against versions >= 2026-07-28 (it filters what server/discover advertises; the legacy initialize handshake does not consult it)",
         "parts": [
             {"pkg": "mcp", "mode": "plain", "test": "TestVerifC07", "shards": 8},
@@ -158,6 +164,7 @@ PROPS = {
         "parts": [
             {"pkg": "mcp", "mode": "plain", "test": "TestVerifC08", "shards": 1, "gomaxprocs": 16, "time_s": {"quick": 150, "thorough": 1500}, "scenario_prefix": "re"},
             {"pkg": "mcp", "mode": "instr", "test": "TestVerifC08Race", "two_phase": True, "scenario_prefix": "race/"},
+            {"pkg": "mcp", "mode": "race", "test": "TestVerifC08Race", "scenario_prefix": "free-race/", "free_runs": {"quick": 60, "thorough": 600}},
         ],
         "assumptions": ["synctest.Wait() quiescence = all bytes the server can write have been written and read"],
     },
@@ -180,6 +187,7 @@ PROPS = {
         "note": "two sessions, two requests per session; budgets B<=1 (quick) / 2 (thorough), B<=2/3 for the duplicate-id scenarios; resumed streams are covered by C08",
         "parts": [
             {"pkg": "mcp", "mode": "instr", "test": "TestVerifC10", "two_phase": True},
+            {"pkg": "mcp", "mode": "race", "test": "TestVerifC10", "scenario_prefix": "free-race/", "free_runs": {"quick": 60, "thorough": 600}},
         ],
         "assumptions": E1_ASSUME,
     },
@@ -197,7 +205,7 @@ PROPS = {
         "level": "model_checking",
         "engine": "explore (bounded-exhaustive enumeration)",
         "technique": "bounded-exhaustive enumeration of requests (all combinations of <=2 deviations from a valid base per endpoint kind) and of schema x argument values, on the real handlers and the real client transport over a wire-faithful in-process round trip, against a reference predicate of the documented preconditions",
-        "claim": "(a) three endpoint kinds (stateless 2026-07-28, stateful legacy, SSE message endpoint) x every combination of <=2 deviations over Host/listener address, Content-Type (7 forms), Accept (8), body size around the limit, protocol-version header, Mcp-Method/Mcp-Name/Mcp-Param-* (absent, different, case-variant, base64-wrapped, malformed base64) and _meta version: the message reaches the server iff no precondition is violated; otherwise a 4xx (403 host, 415 content type, 413 size, -32020 for header mismatches) and nothing dispatched; (b) x-mcp-header annotations at nesting depth 1..5 with annotated siblings x 14 string values (empty, padded, non-ASCII, control, sentinel-looking), safe-range integers, booleans, absent members: every call made through the SDK client is accepted and the tool sees exactly the arguments sent",
+        "claim": "(a) three endpoint kinds (stateless 2026-07-28, stateful legacy, SSE message endpoint) x every combination of <=2 deviations over Host/listener address, Content-Type (7 forms), Accept (8), body size around the limit (with Content-Length and with chunked transfer encoding), protocol-version header, Mcp-Method/Mcp-Name/Mcp-Param-* (absent, different, case-variant, base64-wrapped, malformed base64) and _meta version: the message reaches the server iff no precondition is violated; otherwise a 4xx (403 host, 415 content type, 413 size, -32020 for header mismatches) and nothing dispatched; (b) x-mcp-header annotations at nesting depth 1..5 with annotated siblings x 14 string values (empty, padded, non-ASCII, control, sentinel-looking), safe-range integers, booleans, absent members: every call made through the SDK client is accepted and the tool sees exactly the arguments sent",
         "note": "requests are parsed with http.ReadRequest from raw text and client requests are serialised/re-parsed, so header trimming/canonicalisation is the real wire behaviour; more than 2 simultaneous deviations and values outside the alphabets are outside the bound; null-valued annotated arguments are not schema-valid and not enumerated",
         "parts": [
             {"pkg": "mcp", "mode": "plain", "test": "TestVerifC12", "shards": 16},
@@ -219,7 +227,7 @@ PROPS = {
         "level": "model_checking",
         "engine": "explore (bounded-exhaustive product)",
         "technique": "bounded-exhaustive enumeration of the full input/configuration product on the real middleware against a reference predicate (fixed virtual clock)",
-        "claim": "the full product of 17 Authorization header shapes x 5 verifier outcomes x 3 required x 5 granted scope sets x 7 expirations (incl. the exact skew boundary +-1ns) x 2 skews x AllowMissingExpiration x nil/non-nil options x metadata URL is run through RequireBearerToken under a synctest bubble's fixed clock; handler-ran must equal the reference conjunction, TokenInfo identity, status legal for the causes present, challenge contents on 401/403",
+        "claim": "the full product of 17 Authorization header shapes x 5 verifier outcomes x 3 required x 5 granted scope sets x 7 expirations (incl. the exact skew boundary +-1ns) x 2 skews x AllowMissingExpiration x nil/non-nil options x metadata URL is run through RequireBearerToken under a synctest bubble's fixed clock, each request three times through one middleware with the verifier handing out the same *TokenInfo (decisions are history-independent, the TokenInfo reaches the handler unaltered); handler-ran must equal the reference conjunction, TokenInfo identity, status legal for the causes present, challenge contents on 401/403",
         "note": "values outside the per-dimension alphabets are not covered; where the statement leaves precedence open (scope vs expiry) both statuses are accepted; a tab between scheme and token is treated as undecided",
         "parts": [
             {"pkg": "auth", "mode": "plain", "test": "TestVerifC14", "shards": 4},
